@@ -79,7 +79,7 @@ def run(ctx: Ctx) -> None:
     python_flags()
     ctx.rule = RULE
     cases = corpus("C05")
-    n = ctx.budget(quick=6000, thorough=120000)
+    n = ctx.budget(quick=6000, thorough=60000)
     cases += gen_cases(ctx, n, p_missing=0.06, per_id_flags=0.2)
     # bounded-exhaustive small scope: all of it in the thorough tier, a slice of it in the quick tier
     cases += exhaustive(ctx, 1 if ctx.tier == "thorough" else 8)
